@@ -4306,6 +4306,10 @@ impl Command {
     pub(crate) fn _build_recursive(&mut self, expand_help_tree: bool) {
         self._build_self(expand_help_tree);
         for subcmd in self.get_subcommands_mut() {
+            if expand_help_tree {
+                // May have been built by an earlier parse, which skips the help tree
+                subcmd._expand_help_tree();
+            }
             subcmd._build_recursive(expand_help_tree);
         }
     }
@@ -4758,6 +4762,10 @@ impl Command {
             self.args.push(arg);
         }
 
+        self._build_help_subcommand(expand_help_tree);
+    }
+
+    fn _build_help_subcommand(&mut self, expand_help_tree: bool) {
         if !self.is_set(AppSettings::DisableHelpSubcommand) {
             debug!("Command::_check_help_and_version: Building help subcommand");
             let help_about = "Print this message or the help of the given subcommand(s)";
@@ -4798,6 +4806,20 @@ impl Command {
                 .unset_global_setting(AppSettings::PropagateVersion);
 
             self.subcommands.push(help_subcmd);
+        }
+    }
+
+    /// Expand the generated `help` subcommand of a command that was built without its help tree
+    fn _expand_help_tree(&mut self) {
+        if self.is_set(AppSettings::Built) && !self.is_set(AppSettings::DisableHelpSubcommand) {
+            let collapsed = self
+                .subcommands
+                .iter()
+                .position(|sc| sc.get_name() == "help" && !sc.has_subcommands());
+            if let Some(pos) = collapsed {
+                self.subcommands.remove(pos);
+                self._build_help_subcommand(true);
+            }
         }
     }
 
